@@ -98,6 +98,12 @@ impl std::fmt::Debug for V {
 }
 
 type Cmp = Box<dyn Fn(&K, &K) -> Ordering + Send>;
+
+/// Migration hands the container to another thread while this one waits: exactly one thread touches it at any
+/// time, whatever auto traits the container type happens to have (a change that stores raw pointers in the tree
+/// makes it `!Send`; that is not what C17 is about and must not stop the harness from building).
+struct Handoff<T>(T);
+unsafe impl<T> Send for Handoff<T> {}
 type Map = SplayTree<K, V, Cmp>;
 type Set = SplaySet<K, Cmp>;
 
@@ -692,7 +698,8 @@ fn exec_map(cx: &mut Ctx, t: &mut Map, ops: &[Op], base: usize) -> Result<(), Fa
                 // no nested migration, and Index panics stay on this thread
                 if slice.iter().all(|o| !matches!(o, Op::Migrate(_))) {
                     let b = base + i;
-                    let r = std::thread::scope(|s| s.spawn(|| exec_map(cx, t, slice, b)).join());
+                    let pass = Handoff((&mut *cx, &mut *t));
+                    let r = std::thread::scope(|s| s.spawn(move || { let p = pass; let Handoff((cx2, t2)) = p; exec_map(cx2, t2, slice, b) }).join());
                     match r {
                         Ok(r) => r?,
                         Err(_) => return fail("panic", || format!("operations #{}.. panicked on the second thread", b)),
@@ -999,7 +1006,8 @@ fn exec_set(cx: &mut Ctx, t: &mut Set, ops: &[Op], base: usize) -> Result<(), Fa
                 let slice = &ops[i..i + n];
                 if slice.iter().all(|o| !matches!(o, Op::Migrate(_))) {
                     let b = base + i;
-                    let r = std::thread::scope(|s| s.spawn(|| exec_set(cx, t, slice, b)).join());
+                    let pass = Handoff((&mut *cx, &mut *t));
+                    let r = std::thread::scope(|s| s.spawn(move || { let p = pass; let Handoff((cx2, t2)) = p; exec_set(cx2, t2, slice, b) }).join());
                     match r {
                         Ok(r) => r?,
                         Err(_) => return fail("panic", || format!("operations #{}.. panicked on the second thread", b)),
